@@ -98,52 +98,6 @@ def gen_poly_args(rng, nmax=9, kmax=8):
     return g, rmin, rmax, c, r0, s, red
 
 
-def poly_scales(r, rmin, rmax, c, r0, s, reduced):
-    """Sum of the absolute values of the terms the code adds up, per grid point:
-    (func_scale, abel_scale).  Mirrors polynomial.py:118-226 with |.| everywhere."""
-    from scipy.linalg import pascal, toeplitz
-    n = len(r)
-    zf = np.zeros(n)
-    if rmax <= 0:
-        return zf, zf
-    rmin = max(rmin, 0.0)
-    c = np.array(np.trim_zeros(np.asarray(c, float), 'b'), float)
-    if len(c) == 0:
-        return zf, zf
-    K = len(c) - 1
-    sc = 1.0
-    r = np.asarray(r, float)
-    if reduced:
-        r = r / rmax; r0 = r0 / rmax; s = s / rmax; sc = rmax; rmin = rmin / rmax; rmax = 1.0
-    ca = np.abs(c) * np.abs(1.0 / s) ** np.arange(K + 1)
-    if r0 != 0.0:
-        P = pascal(1 + K, 'upper', False)
-        T = toeplitz([1.0] + [0.0] * K, np.abs(float(r0)) ** np.arange(K + 1))
-        ca = (P * T).dot(ca)
-    fs = sum(ca[k] * r ** k for k in range(K + 1))
-    as_ = np.zeros(n)
-    for i, x in enumerate(r):
-        if not x < rmax:
-            continue
-        yup = np.sqrt(max(rmax * rmax - x * x, 0.0)); ylo = np.sqrt(max(rmin * rmin - x * x, 0.0))
-        m = max(rmin, x)
-        l1 = abs(np.log(rmax + yup)) if rmax + yup > 0 else 0.0
-        l2 = abs(np.log(m + ylo)) if m + ylo > 0 else 0.0
-        tot = 0.0
-        for k in range(K + 1):
-            C = 1.0 / (k + 1); j = 0; ak = 0.0
-            while True:
-                ak += C * x ** j * (rmax ** (k - j) * yup + rmin ** (k - j) * ylo)
-                if k - j < 2:
-                    break
-                C = C * (k - j) / (k - j - 1); j += 2
-            if k % 2:
-                ak += C * x ** (k + 1) * (l1 + l2 + 2.0)
-            tot += ca[k] * sc * 2 * ak
-        as_[i] = tot
-    return fs, as_
-
-
 def tol_q(x, rel):
     """rational tolerance rel * x + tiny, rounded up to a short dyadic"""
     v = float(x) * rel + 1e-300
